@@ -21,6 +21,77 @@ Definition corresponds (k k' : key) : Prop :=
   k_id k' = k_id k /\ k_kty k' = k_kty k /\ k_crv k' = k_crv k /\ k_bits k' = k_bits k /\
   k_use k' = k_use k /\ k_ops k' = None.
 
+(* ---------- set_kid keeps a valid header valid ---------- *)
+Definition reg_kid_ok (reg : list hparam) : bool :=
+  existsb (fun p => str_eqb (asc (hp_name p)) s_kid) reg &&
+  forallb (fun p => if str_eqb (asc (hp_name p)) s_kid
+                    then match hp_kind p with VStr => true | _ => false end else true) reg.
+Lemma reg_kid_ok_both : reg_kid_ok jws_default_header_registry = true /\
+                        reg_kid_ok jws7797_default_header_registry = true.
+Proof. split; vm_compute; reflexivity. Qed.
+
+Lemma dmem_dset_mono {A} (d : list (str * A)) k v s : dmem d s = true -> dmem (dset d k v) s = true.
+Proof.
+  intro H. destruct (str_eqb k s) eqn:E.
+  - apply str_eqb_eq in E. subst s. unfold dmem. rewrite dget_dset_same. reflexivity.
+  - rewrite dmem_dset_other by (apply str_eqb_neq; exact E). exact H.
+Qed.
+
+Lemma crit_loop_mono h h' l :
+  (forall s, dmem h s = true -> dmem h' s = true) ->
+  crit_loop h l = Ok tt -> crit_loop h' l = Ok tt.
+Proof.
+  intro M. induction l as [|k l IH]; [auto|]. cbn [crit_loop]. intro H.
+  bstep H as b PI. destruct b; [|discriminate].
+  destruct k; cbn in PI; try discriminate; inversion PI as [Q].
+  cbn [py_in bind]. rewrite (M _ Q). cbn [bind]. apply IH. exact H.
+Qed.
+
+Lemma dkeys_dset_fresh {A} (d : list (str * A)) k v : dget d k = None -> dkeys (dset d k v) = dkeys d ++ [k].
+Proof.
+  induction d as [|[k' v'] d IH]; intro H; [reflexivity|].
+  cbn [dget] in H. cbn [dset]. destruct (str_eqb k' k); [discriminate|].
+  unfold dkeys in *. cbn [map fst app]. rewrite (IH H). reflexivity.
+Qed.
+
+Lemma check_header_set_kid rg h id :
+  dget h s_kid = None -> check_header rg (PDict h) = Ok tt ->
+  check_header rg (PDict (dset h s_kid (PStr id))) = Ok tt.
+Proof.
+  intros NK H. unfold check_header in *.
+  assert (RK : reg_kid_ok (header_registry rg) = true).
+  { unfold header_registry. destruct (rg_7797 rg); apply reg_kid_ok_both. }
+  apply andb_true_iff in RK. destruct RK as [RK1 RK2].
+  assert (NEQ : forall s, s <> s_kid -> dget (dset h s_kid (PStr id)) s = dget h s).
+  { intros s N. apply dget_dset_other. congruence. }
+  bstep H as u1 SB. bstep H as u2 CC. bstep H as u3 VR.
+  (* b64 / crit part *)
+  rewrite (dmem_dset_other h s_kid s_b64) by (vm_compute; discriminate).
+  assert (SB' : (if rg_7797 rg && dmem h s_b64 then safe_b64_header (dset h s_kid (PStr id)) else ok) = Ok tt).
+  { destruct (rg_7797 rg && dmem h s_b64); [|reflexivity].
+    unfold safe_b64_header in *. rewrite NEQ by (vm_compute; discriminate). destruct u1. exact SB. }
+  rewrite SB'. cbn [bind].
+  assert (CC' : check_crit_header (dset h s_kid (PStr id)) = Ok tt).
+  { unfold check_crit_header in *. rewrite NEQ by (vm_compute; discriminate).
+    destruct (dget h s_crit) as [c|]; [|reflexivity]. destruct c; try discriminate.
+    destruct (forallb is_str l); [|discriminate]. destruct u2.
+    eapply crit_loop_mono; [|exact CC]. intros s. apply dmem_dset_mono. }
+  rewrite CC'. cbn [bind].
+  assert (VR' : validate_registry_header (header_registry rg) (dset h s_kid (PStr id)) = Ok tt).
+  { unfold validate_registry_header in *.
+    destruct (forallb _ (header_registry rg)) eqn:FA in VR; [|discriminate].
+    match goal with |- (if ?c then _ else _) = _ => assert (X : c = true); [|rewrite X; reflexivity] end.
+    rewrite forallb_forall in *. intros p Hp. specialize (FA p Hp). specialize (RK2 p Hp).
+    destruct (str_eqb (asc (hp_name p)) s_kid) eqn:E.
+    - apply str_eqb_eq in E. rewrite E, dget_dset_same. destruct (hp_kind p); try discriminate. reflexivity.
+    - rewrite NEQ by (apply str_eqb_neq; exact E). exact FA. }
+  rewrite VR'. cbn [bind].
+  destruct jws_default_instance_strict; [|reflexivity].
+  unfold check_supported_header in *.
+  destruct (forallb _ (dkeys h)) eqn:FA in H; [|discriminate].
+  rewrite dkeys_dset_fresh by exact NK. rewrite forallb_app, FA. cbn [forallb andb]. rewrite RK1. reflexivity.
+Qed.
+
 Section C03.
   Variable json_loads : bytes -> res pv.
   Variable json_dumps : pv -> bytes.
@@ -41,9 +112,13 @@ Section C03.
       (0 <= rr)%Z /\ (0 <= ss)%Z /\
       Z.to_N rr < 256 ^ N.of_nat (ec_len k) /\ Z.to_N ss < 256 ^ N.of_nat (ec_len k) /\
       ec_verify r (k_id k) msg rr ss = Ok true.
-  (* json.loads(json.dumps(h)) == h, and the dump is an octet string *)
-  Hypothesis json_rt : forall h, json_loads (json_dumps (PDict h)) = Ok (PDict h) /\
-                                 bytes_ok (json_dumps (PDict h)) = true.
+  (* json.loads(json.dumps(h)) == h, and the dump is a non-empty octet string, for
+     the header objects [hok] admits (instantiated in C03JsonProofs by the Gallina
+     JSON model with hok h = json_ok (PDict h)) *)
+  Variable hok : list (str * pv) -> bool.
+  Hypothesis json_rt : forall h, hok h = true ->
+      json_loads (json_dumps (PDict h)) = Ok (PDict h) /\
+      bytes_ok (json_dumps (PDict h)) = true /\ json_dumps (PDict h) <> [].
 
   Notation asign := (alg_sign mac pk_sign ec_sign).
   Notation averify := (alg_verify mac pk_verify ec_verify).
@@ -128,46 +203,265 @@ Section C03.
 
   (* decode_header of an encoded header *)
   Lemma decode_header_enc h :
-    dmem h s_alg = true ->
+    hok h = true -> dmem h s_alg = true ->
     decode_header json_loads (json_b64encode json_dumps h) = Ok (PDict h).
   Proof.
-    intro A. destruct (json_rt h) as [J B].
+    intros OK A. destruct (json_rt h OK) as (J & B & _).
     unfold decode_header, json_b64decode, json_b64encode.
     rewrite b64_roundtrip by exact B. cbn [bind]. rewrite J. cbn [to_decode_error]. rewrite A. reflexivity.
   Qed.
 
-  (* ---------------- compact ---------------- *)
-  Theorem compact_rt_rg h payload k k' rg tok :
-    corresponds k k' -> (0 < ec_len k)%nat -> bytes_ok payload = true ->
-    (forall r, get_alg rg (match dget h s_alg with Some v => v | None => PNone end) = Ok r -> fam_of r <> FNone) ->
-    serialize_compact_rg json_dumps mac pk_sign ec_sign choose h payload (KOne k) rg = Ok tok ->
-    exists o, deserialize_compact_rg json_loads mac pk_verify ec_verify tok (KOne k') rg = Ok o /\
-              co_payload o = payload /\ co_protected o = PDict h.
+  Lemma enc_ascii h : hok h = true -> all_ascii (json_b64encode json_dumps h) = true.
   Proof.
-    intros C HL BP NN H. unfold serialize_compact_rg in H.
+    intro OK. destruct (json_rt h OK) as (_ & BJ & _).
+    unfold json_b64encode, all_ascii. pose proof (b64e_alphabet _ BJ) as AL.
+    rewrite forallb_forall in *. intros c Hc. specialize (AL c Hc).
+    apply in_alphabet_spec in AL. lia.
+  Qed.
+
+  Lemma enc_nonempty h : hok h = true -> json_b64encode json_dumps h <> [].
+  Proof.
+    intro OK. destruct (json_rt h OK) as (_ & _ & NE). unfold json_b64encode.
+    destruct (json_dumps (PDict h)) as [|a [|b [|c r]]]; [congruence|discriminate..].
+  Qed.
+
+  Lemma enc_no_dot h : hok h = true -> no_dot (json_b64encode json_dumps h) = true.
+  Proof. intro OK. destruct (json_rt h OK) as (_ & B & _). apply b64e_no_dot. exact B. Qed.
+
+  (* ---------------- key resolution on both sides ---------------- *)
+  (* what the signer's key source resolves to (key, kid stored by set_kid) is found
+     again by the verifier's key source from the produced header *)
+  Definition key_ok (rg : registry) (src src' : keysrc) (h : list (str * pv)) : Prop :=
+    forall k okid, check_header rg (PDict h) = Ok tt ->
+      guess_key_sign choose src h = Ok (k, okid) ->
+      (0 < ec_len k)%nat /\ hok (set_kid h okid) = true /\
+      check_header rg (PDict (set_kid h okid)) = Ok tt /\
+      py_getitem_str (PDict (set_kid h okid)) s_alg = py_getitem_str (PDict h) s_alg /\
+      exists k', guess_key src' (PDict (set_kid h okid)) = Ok k' /\ corresponds k k'.
+
+  Lemma key_ok_one rg k k' h :
+    corresponds k k' -> (0 < ec_len k)%nat -> hok h = true -> key_ok rg (KOne k) (KOne k') h.
+  Proof.
+    intros C HL OK k0 okid CH G. cbn [guess_key_sign] in G. inversion G; subst.
+    cbn [set_kid guess_key]. eauto 10.
+  Qed.
+
+  Lemma unit_tt (u : unit) : u = tt. Proof. destruct u; reflexivity. Qed.
+
+  (* ---------------- compact ---------------- *)
+  Theorem compact_rt_gen h payload src src' rg tok :
+    key_ok rg src src' h -> bytes_ok payload = true ->
+    (forall r, get_alg rg (match dget h s_alg with Some v => v | None => PNone end) = Ok r -> fam_of r <> FNone) ->
+    serialize_compact_rg json_dumps mac pk_sign ec_sign choose h payload src rg = Ok tok ->
+    exists o k okid,
+      guess_key_sign choose src h = Ok (k, okid) /\
+      deserialize_compact_rg json_loads mac pk_verify ec_verify tok src' rg = Ok o /\
+      co_payload o = payload /\ co_protected o = PDict (set_kid h okid).
+  Proof.
+    intros KO BP NN H. unfold serialize_compact_rg in H.
     bstep H as u CH. bstep H as algv GA. bstep H as r GR. bstep H as kk GK.
-    cbn [guess_key_sign] in GK. inversion GK; subst kk. cbn [fst snd set_kid] in H.
+    destruct kk as [k okid]. cbn [fst snd] in H. rewrite (unit_tt u) in CH.
+    destruct (KO k okid CH GK) as (HL & OK & CH' & GA' & k' & GKV & C).
     bstep H as u2 CU. bstep H as u3 CT. bstep H as u4 CA.
     unfold sign_compact in H. bstep H as sig AS. inversion H; subst tok. clear H.
     assert (NNr : fam_of r <> FNone).
     { apply NN. unfold py_getitem_str in GA. destruct (dget h s_alg); inversion GA; subst; exact GR. }
     destruct (alg_rt r k k' _ _ C NNr HL AS) as [BS AV].
-    destruct (json_rt h) as [J BJ].
+    set (h' := set_kid h okid) in *.
     rewrite tok_assoc.
     unfold deserialize_compact_rg, extract_compact.
-    rewrite split3 by (apply b64e_no_dot; assumption).
-    rewrite (decode_header_enc h (getitem_dmem _ _ _ GA)). cbn [bind].
+    rewrite split3 by (try apply enc_no_dot; try apply b64e_no_dot; assumption).
+    rewrite <- GA' in GA.
+    rewrite (decode_header_enc h' OK (getitem_dmem _ _ _ GA)). cbn [bind].
     rewrite (b64_roundtrip payload BP). cbn [bind].
     unfold validate_compact. cbn [co_protected co_payload co_hseg co_pseg co_sseg].
-    rewrite CH. cbn [bind guess_key].
+    rewrite CH'. cbn [bind]. rewrite GKV. cbn [bind].
     destruct C as (Hid & Hty & Hcrv & Hbits & Huse & Hops).
     rewrite (check_use_corr k k' Huse), CU. cbn [bind]. rewrite GA. cbn [bind]. rewrite GR. cbn [bind].
     rewrite (check_key_type_corr r k k' Hty), CT. cbn [bind].
     unfold verify_compact. cbn [co_hseg co_pseg co_sseg].
     rewrite (b64_roundtrip sig BS). cbn [bind]. rewrite AV. cbn [bind].
-    eexists. split; [reflexivity|]. auto.
+    eexists. exists k, okid. split; [exact GK|]. split; [reflexivity|]. auto.
   Qed.
 
+  Theorem compact_rt_rg h payload k k' rg tok :
+    corresponds k k' -> (0 < ec_len k)%nat -> bytes_ok payload = true -> hok h = true ->
+    (forall r, get_alg rg (match dget h s_alg with Some v => v | None => PNone end) = Ok r -> fam_of r <> FNone) ->
+    serialize_compact_rg json_dumps mac pk_sign ec_sign choose h payload (KOne k) rg = Ok tok ->
+    exists o, deserialize_compact_rg json_loads mac pk_verify ec_verify tok (KOne k') rg = Ok o /\
+              co_payload o = payload /\ co_protected o = PDict h.
+  Proof.
+    intros C HL BP OK NN H.
+    destruct (compact_rt_gen h payload _ _ rg tok (key_ok_one rg k k' h C HL OK) BP NN H)
+      as (o & k0 & okid & G & D & P & Q).
+    cbn [guess_key_sign] in G. inversion G; subst. exists o. auto.
+  Qed.
+
+  (* ---------------- rfc7797 compact, b64 = false ---------------- *)
+  (* the regular expression ^[a-zA-Z0-9-_~]+$ (as re.match applies it) as a predicate *)
+  Definition urlsafe_re (l : list N) : bool :=
+    match l with [] => false | c :: _ => urlsafe_char c && urlsafe_body l end.
+
+  Lemma urlsafe_char_not_dot c : urlsafe_char c = true -> (c =? 46) = false.
+  Proof.
+    unfold urlsafe_char. intro H. destruct (c =? 46) eqn:E; [|reflexivity].
+    apply N.eqb_eq in E. subst c. vm_compute in H. discriminate.
+  Qed.
+
+  Lemma urlsafe_body_no_dot l : urlsafe_body l = true -> no_dot l = true.
+  Proof.
+    induction l as [|c l IH]; [reflexivity|]. destruct l as [|d l].
+    - cbn. intro H. apply orb_true_iff in H. destruct H as [H|H].
+      + rewrite (urlsafe_char_not_dot c H). reflexivity.
+      + apply N.eqb_eq in H. subst c. reflexivity.
+    - intro H. change (urlsafe_body (c :: d :: l)) with (urlsafe_char c && urlsafe_body (d :: l)) in H.
+      apply andb_true_iff in H. destruct H as [H1 H2].
+      change (no_dot (c :: d :: l)) with (negb (c =? 46) && no_dot (d :: l)).
+      rewrite (urlsafe_char_not_dot c H1), (IH H2). reflexivity.
+  Qed.
+
+  Theorem urlsafe_no_dot l : urlsafe_re l = true -> no_dot l = true.
+  Proof.
+    unfold urlsafe_re. destruct l as [|c l]; [discriminate|]. intro H.
+    apply andb_true_iff in H. apply urlsafe_body_no_dot. tauto.
+  Qed.
+
+  Lemma urlsafe_char_lt c : urlsafe_char c = true -> (c <? 128) = true.
+  Proof.
+    unfold urlsafe_char. intro H. apply orb_true_iff in H. destruct H as [H|H].
+    - apply in_alphabet_spec in H. lia.
+    - apply N.eqb_eq in H. subst c. reflexivity.
+  Qed.
+
+  Lemma urlsafe_body_utf8 l : urlsafe_body l = true -> utf8_ok l = true.
+  Proof.
+    induction l as [|c l IH]; [reflexivity|]. destruct l as [|d l].
+    - cbn [urlsafe_body]. intro H. apply orb_true_iff in H.
+      assert (L : (c <? 128) = true).
+      { destruct H as [H|H]; [apply urlsafe_char_lt; exact H|apply N.eqb_eq in H; subst c; reflexivity]. }
+      cbn [utf8_ok]. rewrite L. reflexivity.
+    - intro H. change (urlsafe_body (c :: d :: l)) with (urlsafe_char c && urlsafe_body (d :: l)) in H.
+      apply andb_true_iff in H. destruct H as [H1 H2].
+      change (utf8_ok (c :: d :: l)) with (if c <? 128 then utf8_ok (d :: l) else
+        if (194 <=? c) && (c <=? 223) then cont d && utf8_ok l else
+        if (224 <=? c) && (c <=? 239) then
+          match l with
+          | d0 :: r2 => (if c =? 224 then (160 <=? d) && (d <=? 191)
+                         else if c =? 237 then (128 <=? d) && (d <=? 159) else cont d) && cont d0 && utf8_ok r2
+          | _ => false
+          end
+        else if (240 <=? c) && (c <=? 244) then
+          match l with
+          | d0 :: e :: r3 => (if c =? 240 then (144 <=? d) && (d <=? 191)
+                              else if c =? 244 then (128 <=? d) && (d <=? 143) else cont d) && cont d0 && cont e && utf8_ok r3
+          | _ => false
+          end
+        else false).
+      rewrite (urlsafe_char_lt c H1). apply IH. exact H2.
+  Qed.
+
+  Lemma is_urlsafe_spec lenient l b : is_urlsafe lenient l = Ok b -> b = true -> urlsafe_re l = true.
+  Proof.
+    unfold is_urlsafe, urlsafe_re. destruct (utf8_ok l).
+    - intros H ->. inversion H. reflexivity.
+    - destruct lenient; intros H ->; discriminate.
+  Qed.
+
+  Theorem compact97_rt_gen lenient h payload src src' algs tok :
+    key_ok (reg97 algs) src src' h -> bytes_ok payload = true ->
+    (exists b, dget h s_b64 = Some b /\ b <> PBool true) ->
+    (forall okid, dget (set_kid h okid) s_b64 = dget h s_b64) ->
+    (forall r, get_alg (reg97 algs) (match dget h s_alg with Some v => v | None => PNone end) = Ok r -> fam_of r <> FNone) ->
+    serialize_compact97 json_dumps mac pk_sign ec_sign choose lenient h payload src algs = Ok tok ->
+    exists k okid hseg sseg,
+      guess_key_sign choose src h = Ok (k, okid) /\
+      (* attached iff the payload matches the regular expression, else detached *)
+      tok = hseg ++ 46 :: (if urlsafe_re payload then payload else []) ++ 46 :: sseg /\
+      no_dot hseg = true /\ no_dot sseg = true /\
+      exists o,
+        deserialize_compact97 json_loads mac pk_verify ec_verify tok src'
+          (if urlsafe_re payload then None else Some payload) algs = Ok o /\
+        co_payload o = payload /\ co_protected o = PDict (set_kid h okid).
+  Proof.
+    intros KO BP (b & DB & NB) SB NN H. unfold serialize_compact97 in H. rewrite DB in H.
+    assert (H' : (do _ <- check_header (reg97 algs) (PDict h);
+                  do algv <- py_getitem_str (PDict h) s_alg;
+                  do r <- get_alg (reg97 algs) algv;
+                  do kk <- guess_key_sign choose src h;
+                  do _ <- check_use (fst kk);
+                  do _ <- check_key_type r (fst kk);
+                  do sig <- alg_sign mac pk_sign ec_sign r (fst kk)
+                              (json_b64encode json_dumps (set_kid h (snd kk)) ++ 46 :: payload);
+                  do u <- is_urlsafe lenient payload;
+                  if u then Ok (json_b64encode json_dumps (set_kid h (snd kk)) ++ 46 :: payload ++ 46 :: b64e sig)
+                  else Ok (json_b64encode json_dumps (set_kid h (snd kk)) ++ 46 :: 46 :: b64e sig)) = Ok tok).
+    { destruct b as [|[|]| | | | | |]; try exact H. congruence. }
+    clear H. rename H' into H.
+    bstep H as u CH. bstep H as algv GA. bstep H as r GR. bstep H as kk GK.
+    destruct kk as [k okid]. cbn [fst snd] in H. rewrite (unit_tt u) in CH.
+    destruct (KO k okid CH GK) as (HL & OK & CH' & GA' & k' & GKV & C).
+    bstep H as u2 CU. bstep H as u3 CT. bstep H as sig AS. bstep H as us US.
+    assert (NNr : fam_of r <> FNone).
+    { apply NN. unfold py_getitem_str in GA. destruct (dget h s_alg); inversion GA; subst; exact GR. }
+    destruct (alg_rt r k k' _ _ C NNr HL AS) as [BS AV].
+    set (h' := set_kid h okid) in *. set (hseg := json_b64encode json_dumps h') in *.
+    assert (UR : urlsafe_re payload = us).
+    { unfold is_urlsafe in US. unfold urlsafe_re. destruct (utf8_ok payload) eqn:U8.
+      - inversion US. reflexivity.
+      - destruct lenient; [|discriminate]. inversion US; subst us.
+        (* not UTF-8: some octet >= 128, hence not in the class *)
+        destruct payload as [|c l]; [reflexivity|].
+        destruct (urlsafe_char c && urlsafe_body (c :: l)) eqn:E; [|reflexivity].
+        exfalso. apply andb_true_iff in E. destruct E as [_ E].
+        apply urlsafe_body_utf8 in E. congruence. }
+    exists k, okid, hseg, (b64e sig). split; [exact GK|].
+    rewrite <- GA' in GA.
+    assert (HB : py_in (PStr s_b64) (PDict h') = Ok true).
+    { cbn. unfold dmem, h'. rewrite SB, DB. reflexivity. }
+    assert (GB : py_getitem_str (PDict h') s_b64 = Ok b).
+    { cbn. unfold h'. rewrite SB, DB. reflexivity. }
+    assert (TOKEQ : tok = hseg ++ 46 :: (if urlsafe_re payload then payload else []) ++ 46 :: b64e sig).
+    { rewrite UR. destruct us; inversion H; reflexivity. }
+    split; [exact TOKEQ|]. split; [apply enc_no_dot; exact OK|]. split; [apply b64e_no_dot; exact BS|].
+    assert (ND : no_dot (if urlsafe_re payload then payload else []) = true).
+    { destruct (urlsafe_re payload) eqn:E; [apply urlsafe_no_dot; exact E|reflexivity]. }
+    rewrite TOKEQ. unfold deserialize_compact97, extract_compact97.
+    rewrite split3 by (try apply enc_no_dot; try apply b64e_no_dot; assumption).
+    unfold hseg at 1. rewrite (decode_header_enc h' OK (getitem_dmem _ _ _ GA)). cbn [bind].
+    rewrite HB. cbn [bind negb]. rewrite GB. cbn [bind].
+    assert (PL : (match (if urlsafe_re payload then None else Some payload) with
+                  | Some ((_ :: _) as x) => x
+                  | _ => if urlsafe_re payload then payload else []
+                  end) = payload).
+    { destruct (urlsafe_re payload); [reflexivity|]. destruct payload; reflexivity. }
+    assert (GOAL : forall pl, pl = payload ->
+             exists o, (match X97Obj {| co_protected := PDict h'; co_payload := pl; co_hseg := hseg;
+                                        co_pseg := (if urlsafe_re payload then payload else []);
+                                        co_sseg := b64e sig |} with
+                        | X97None => deserialize_compact_rg json_loads mac pk_verify ec_verify
+                                       (hseg ++ 46 :: (if urlsafe_re payload then payload else []) ++ 46 :: b64e sig) src' (reg15 algs)
+                        | X97True => deserialize_compact_rg json_loads mac pk_verify ec_verify
+                                       (hseg ++ 46 :: (if urlsafe_re payload then payload else []) ++ 46 :: b64e sig) src' (reg97 algs)
+                        | X97Obj o =>
+                            do _ <- check_header (reg97 algs) (co_protected o);
+                            do k <- guess_key src' (co_protected o);
+                            do _ <- check_use k;
+                            do algv <- py_getitem_str (co_protected o) s_alg;
+                            do r <- get_alg (reg97 algs) algv;
+                            do _ <- check_key_type r k;
+                            do sig <- b64d (co_sseg o);
+                            do b <- alg_verify mac pk_verify ec_verify r k (co_hseg o ++ 46 :: co_payload o) sig;
+                            if b then Ok o else jerr BadSignatureError
+                        end) = Ok o /\ co_payload o = payload /\ co_protected o = PDict h').
+    { intros pl ->. cbn [co_protected co_payload co_hseg co_pseg co_sseg].
+      rewrite CH'. cbn [bind]. rewrite GKV. cbn [bind].
+      destruct C as (Hid & Hty & Hcrv & Hbits & Huse & Hops).
+      rewrite (check_use_corr k k' Huse), CU. cbn [bind]. rewrite GA. cbn [bind]. rewrite GR. cbn [bind].
+      rewrite (check_key_type_corr r k k' Hty), CT. cbn [bind].
+      rewrite (b64_roundtrip sig BS). cbn [bind]. rewrite AV. cbn [bind].
+      eexists. split; [reflexivity|]. auto. }
+    destruct b as [|[|]| | | | | |]; try congruence; cbv zeta; cbn [bind]; (apply GOAL; exact PL).
+  Qed.
   (* ---------------- JSON: one member ---------------- *)
   Definition smember_member (m : smember) : member :=
     {| m_protected := match sm_protected m with Some ((_ :: _) as d) => Some (PDict d) | _ => None end;
@@ -179,92 +473,443 @@ Section C03.
     destruct (sm_protected m) as [[|kv d]|]; destruct (sm_header m) as [[|kv2 hd]|]; reflexivity.
   Qed.
 
-  Theorem member_rt m payload k k' rg sg :
-    corresponds k k' -> (0 < ec_len k)%nat ->
-    (forall r, get_alg rg (match dget (smember_headers m) s_alg with Some v => v | None => PNone end) = Ok r -> fam_of r <> FNone) ->
-    sign_member json_dumps mac pk_sign ec_sign choose (b64e payload) m rg (KOne k) = Ok sg ->
-    signature_to_member json_loads sg = Ok (smember_member m) /\
-    verify_signature mac pk_verify ec_verify (smember_member m) sg (b64e payload) rg (KOne k') = Ok true.
+  (* the member after set_kid stored the kid of the chosen key in the unprotected header *)
+  Definition smember_set_kid (m : smember) (okid : option str) : smember :=
+    {| sm_protected := sm_protected m;
+       sm_header := match okid with
+                    | Some id => Some (dset (match sm_header m with Some h => h | None => [] end) s_kid (PStr id))
+                    | None => sm_header m
+                    end |}.
+
+  Definition prot_of (m : smember) : bytes :=
+    match sm_protected m with Some ((_ :: _) as d) => json_b64encode json_dumps d | _ => [] end.
+  Definition sig_of (m : smember) (sig : bytes) : jsig :=
+    {| js_protected := match sm_protected m with Some ((_ :: _) as d) => Some (json_b64encode json_dumps d) | _ => None end;
+       js_header := match sm_header m with Some ((_ :: _) as h) => Some h | _ => None end;
+       js_signature := Some (b64e sig) |}.
+  Definition prot_hok (m : smember) : Prop :=
+    match sm_protected m with Some d => hok d = true | None => True end.
+
+  Lemma verify_side m' sig pseg rg src' r k' algv :
+    prot_hok m' ->
+    check_header rg (PDict (smember_headers m')) = Ok tt ->
+    py_getitem_str (PDict (smember_headers m')) s_alg = Ok algv -> get_alg rg algv = Ok r ->
+    guess_key src' (PDict (smember_headers m')) = Ok k' -> check_use k' = Ok tt ->
+    check_key_type r k' = Ok tt -> bytes_ok sig = true ->
+    alg_verify mac pk_verify ec_verify r k' (prot_of m' ++ 46 :: pseg) sig = Ok true ->
+    signature_to_member json_loads (sig_of m' sig) = Ok (smember_member m') /\
+    verify_signature mac pk_verify ec_verify (smember_member m') (sig_of m' sig) pseg rg src' = Ok true.
   Proof.
-    intros C HL NN H. unfold sign_member in H.
+    intros PH CH GA GR GK CU CT BS AV. split.
+    - unfold signature_to_member, smember_member, sig_of. cbn [js_protected js_header].
+      unfold prot_hok in PH.
+      destruct (sm_protected m') as [[|kv d]|]; cbn [bind]; try reflexivity.
+      destruct (json_rt (kv :: d) PH) as (J & BJ & _).
+      rewrite (enc_ascii _ PH). unfold json_b64decode, json_b64encode. rewrite b64_roundtrip by exact BJ.
+      cbn [bind]. rewrite J. cbn [bind is_dict]. reflexivity.
+    - unfold verify_signature. rewrite smember_headers_eq. cbn [bind].
+      rewrite CH. cbn [bind]. rewrite GA. cbn [bind]. rewrite GR. cbn [bind]. rewrite GK. cbn [bind].
+      rewrite CU. cbn [bind]. rewrite CT. cbn [bind]. unfold sig_of, prot_of in *.
+      cbn [js_signature js_protected of_opt bind].
+      rewrite (b64_roundtrip sig BS). cbn [bind].
+      destruct (sm_protected m') as [[|kv d]|]; exact AV.
+  Qed.
+
+  Definition mkey_ok (rg : registry) (src src' : keysrc) (m : smember) : Prop :=
+    forall k okid, check_header rg (PDict (smember_headers m)) = Ok tt ->
+      guess_key_sign choose src (smember_headers m) = Ok (k, okid) ->
+      (0 < ec_len k)%nat /\
+      check_header rg (PDict (smember_headers (smember_set_kid m okid))) = Ok tt /\
+      py_getitem_str (PDict (smember_headers (smember_set_kid m okid))) s_alg
+        = py_getitem_str (PDict (smember_headers m)) s_alg /\
+      exists k', guess_key src' (PDict (smember_headers (smember_set_kid m okid))) = Ok k' /\ corresponds k k'.
+
+  Lemma mkey_ok_one rg k k' m :
+    corresponds k k' -> (0 < ec_len k)%nat -> mkey_ok rg (KOne k) (KOne k') m.
+  Proof.
+    intros C HL k0 okid CH G. cbn [guess_key_sign] in G. inversion G; subst.
+    assert (E : smember_set_kid m None = m) by (destruct m; reflexivity).
+    rewrite E. cbn [guess_key]. eauto 10.
+  Qed.
+
+  Theorem member_rt_gen m pseg src src' rg sg :
+    mkey_ok rg src src' m -> prot_hok m ->
+    (forall r, get_alg rg (match dget (smember_headers m) s_alg with Some v => v | None => PNone end) = Ok r -> fam_of r <> FNone) ->
+    sign_member json_dumps mac pk_sign ec_sign choose pseg m rg src = Ok sg ->
+    exists k okid sig,
+      guess_key_sign choose src (smember_headers m) = Ok (k, okid) /\
+      sg = sig_of (smember_set_kid m okid) sig /\
+      signature_to_member json_loads sg = Ok (smember_member (smember_set_kid m okid)) /\
+      verify_signature mac pk_verify ec_verify (smember_member (smember_set_kid m okid)) sg pseg rg src' = Ok true.
+  Proof.
+    intros KO PH NN H. unfold sign_member in H.
     bstep H as u CH. bstep H as algv GA. bstep H as r GR. bstep H as kk GK.
-    cbn [guess_key_sign] in GK. inversion GK; subst kk. cbn [fst snd] in H.
-    bstep H as u2 CU. bstep H as u3 CT. bstep H as sig AS. inversion H; subst sg. clear H.
+    destruct kk as [k okid]. cbn [fst snd] in H. rewrite (unit_tt u) in CH.
+    destruct (KO k okid CH GK) as (HL & CH' & GA' & k' & GKV & C).
+    bstep H as u2 CU. bstep H as u3 CT. bstep H as sig AS.
     assert (NNr : fam_of r <> FNone).
     { apply NN. unfold py_getitem_str in GA. destruct (dget (smember_headers m) s_alg); inversion GA; subst; exact GR. }
     destruct (alg_rt r k k' _ _ C NNr HL AS) as [BS AV].
-    split.
-    - unfold signature_to_member, smember_member. cbn [js_protected js_header].
-      destruct (sm_protected m) as [[|kv d]|]; cbn [bind]; try reflexivity.
-      destruct (json_rt (kv :: d)) as [J BJ].
-      assert (AA : all_ascii (json_b64encode json_dumps (kv :: d)) = true).
-      { unfold json_b64encode, all_ascii. pose proof (b64e_alphabet _ BJ) as AL.
-        rewrite forallb_forall in *. intros c Hc. specialize (AL c Hc).
-        apply in_alphabet_spec in AL. lia. }
-      rewrite AA. unfold json_b64decode, json_b64encode. rewrite b64_roundtrip by exact BJ.
-      cbn [bind]. rewrite J. cbn [bind is_dict]. reflexivity.
-    - unfold verify_signature. rewrite smember_headers_eq. cbn [bind].
-      rewrite CH. cbn [bind]. rewrite GA. cbn [bind]. rewrite GR. cbn [bind guess_key].
-      destruct C as (Hid & Hty & Hcrv & Hbits & Huse & Hops).
-      rewrite (check_use_corr k k' Huse), CU. cbn [bind].
-      rewrite (check_key_type_corr r k k' Hty), CT. cbn [bind js_signature of_opt].
-      rewrite (b64_roundtrip sig BS). cbn [bind js_protected].
+    set (m' := smember_set_kid m okid) in *.
+    assert (SG : sg = sig_of m' sig).
+    { inversion H. unfold sig_of, m', smember_set_kid. cbn [sm_protected sm_header]. destruct okid; reflexivity. }
+    exists k, okid, sig. split; [exact GK|]. split; [exact SG|]. rewrite SG.
+    destruct C as (Hid & Hty & Hcrv & Hbits & Huse & Hops).
+    rewrite <- GA' in GA. rewrite (unit_tt u2) in CU. rewrite (unit_tt u3) in CT.
+    apply (verify_side m' sig pseg rg src' r k' algv); try assumption.
+    - rewrite (check_use_corr k k' Huse). exact CU.
+    - rewrite (check_key_type_corr r k k' Hty). exact CT.
+    - unfold prot_of, m', smember_set_kid. cbn [sm_protected].
       destruct (sm_protected m) as [[|kv d]|]; exact AV.
   Qed.
 
+  Lemma sig_of_signature m sig : js_signature (sig_of m sig) = Some (b64e sig).
+  Proof. reflexivity. Qed.
+
+  Theorem flat_rt_gen m payload src src' rg v :
+    mkey_ok rg src src' m -> prot_hok m -> bytes_ok payload = true ->
+    (forall r, get_alg rg (match dget (smember_headers m) s_alg with Some v => v | None => PNone end) = Ok r -> fam_of r <> FNone) ->
+    sign_flattened_json json_dumps mac pk_sign ec_sign choose m payload rg src = Ok v ->
+    exists o k okid,
+      guess_key_sign choose src (smember_headers m) = Ok (k, okid) /\
+      deserialize_json_rg json_loads mac pk_verify ec_verify v src' rg = Ok o /\
+      jo_payload o = payload /\ jo_members o = [smember_member (smember_set_kid m okid)].
+  Proof.
+    intros KO PH BP NN H. unfold sign_flattened_json in H. bstep H as sg SM. inversion H; subst v. clear H.
+    destruct (member_rt_gen _ _ _ _ _ _ KO PH NN SM) as (k & okid & sig & GK & SG & S2M & V).
+    unfold deserialize_json_rg, extract_flattened_json, decode_payload. cbn [of_opt bind].
+    subst sg. rewrite (b64_roundtrip payload BP). cbn [bind]. rewrite sig_of_signature. cbn [of_opt bind].
+    rewrite S2M. cbn [bind].
+    unfold verify_flattened_json. cbn [jo_members jo_sigs jo_pseg fst snd]. rewrite V. cbn [bind].
+    eexists. exists k, okid. split; [exact GK|]. split; [reflexivity|]. auto.
+  Qed.
+
   Theorem flat_rt_rg m payload k k' rg v :
-    corresponds k k' -> (0 < ec_len k)%nat -> bytes_ok payload = true ->
+    corresponds k k' -> (0 < ec_len k)%nat -> bytes_ok payload = true -> prot_hok m ->
     (forall r, get_alg rg (match dget (smember_headers m) s_alg with Some v => v | None => PNone end) = Ok r -> fam_of r <> FNone) ->
     sign_flattened_json json_dumps mac pk_sign ec_sign choose m payload rg (KOne k) = Ok v ->
     exists o, deserialize_json_rg json_loads mac pk_verify ec_verify v (KOne k') rg = Ok o /\
               jo_payload o = payload /\ jo_members o = [smember_member m].
   Proof.
-    intros C HL BP NN H. unfold sign_flattened_json in H. bstep H as sg SM. inversion H; subst v. clear H.
-    assert (SS : exists s, js_signature sg = Some s).
-    { unfold sign_member in SM. repeat (apply bind_ok in SM; destruct SM as (? & ? & SM)).
-      inversion SM. cbn. eauto. }
-    destruct SS as (s & SS).
-    destruct (member_rt _ _ _ _ _ _ C HL NN SM) as [S2M V].
-    unfold deserialize_json_rg, extract_flattened_json, decode_payload. cbn [of_opt bind].
-    rewrite (b64_roundtrip payload BP). cbn [bind]. rewrite SS. cbn [of_opt bind]. rewrite S2M. cbn [bind].
-    unfold verify_flattened_json. cbn [jo_members jo_sigs jo_pseg fst snd]. rewrite V. cbn [bind].
-    eexists. split; [reflexivity|]. auto.
+    intros C HL BP PH NN H.
+    destruct (flat_rt_gen m payload _ _ rg v (mkey_ok_one rg k k' m C HL) PH BP NN H) as (o & k0 & okid & G & D & P & Q).
+    cbn [guess_key_sign] in G. inversion G; subst.
+    assert (E : smember_set_kid m None = m) by (destruct m; reflexivity).
+    rewrite E in Q. exists o. auto.
   Qed.
 
   (* ---------------- JSON: n members ---------------- *)
-  Lemma members_rt payload k k' rg : corresponds k k' -> (0 < ec_len k)%nat ->
+  (* the members as the verifier sees them: each with the kid its signer stored *)
+  Lemma members_rt_gen payload src src' rg :
     forall ms sgs,
-    (forall m, In m ms -> forall r,
+    (forall m, In m ms -> mkey_ok rg src src' m /\ prot_hok m /\ forall r,
         get_alg rg (match dget (smember_headers m) s_alg with Some v => v | None => PNone end) = Ok r -> fam_of r <> FNone) ->
-    map_res (fun m => sign_member json_dumps mac pk_sign ec_sign choose (b64e payload) m rg (KOne k)) ms = Ok sgs ->
-    map_res (signature_to_member json_loads) sgs = Ok (map smember_member ms) /\
-    verify_each mac pk_verify ec_verify (map smember_member ms) sgs (b64e payload) rg (KOne k') = Ok true /\
-    length sgs = length ms.
+    map_res (fun m => sign_member json_dumps mac pk_sign ec_sign choose (b64e payload) m rg src) ms = Ok sgs ->
+    exists ms',
+      Forall2 (fun m m' => exists k okid, guess_key_sign choose src (smember_headers m) = Ok (k, okid) /\
+                                          m' = smember_member (smember_set_kid m okid)) ms ms' /\
+      map_res (signature_to_member json_loads) sgs = Ok ms' /\
+      verify_each mac pk_verify ec_verify ms' sgs (b64e payload) rg src' = Ok true /\
+      length sgs = length ms.
   Proof.
-    intros C HL. induction ms as [|m ms IH]; intros sgs NN H; cbn [map_res] in H.
-    - inversion H. cbn. auto.
+    induction ms as [|m ms IH]; intros sgs NN H; cbn [map_res] in H.
+    - inversion H. exists []. cbn. auto.
     - bstep H as sg SM. bstep H as t MT. inversion H; subst sgs. clear H.
-      destruct (member_rt _ _ _ _ _ _ C HL (NN m (or_introl eq_refl)) SM) as [S2M V].
-      destruct (IH t (fun m' Hin => NN m' (or_intror Hin)) MT) as (A & B & L).
-      cbn [map_res map verify_each length]. rewrite S2M. cbn [bind]. rewrite A. cbn [bind].
+      destruct (NN m (or_introl eq_refl)) as (KO & PH & NNm).
+      destruct (member_rt_gen _ _ _ _ _ _ KO PH NNm SM) as (k & okid & sig & GK & SG & S2M & V).
+      destruct (IH t (fun m' Hin => NN m' (or_intror Hin)) MT) as (ms' & F & A & B & L).
+      exists (smember_member (smember_set_kid m okid) :: ms').
+      split; [constructor; [eauto|exact F]|].
+      cbn [map_res verify_each length]. rewrite S2M. cbn [bind]. rewrite A. cbn [bind].
       rewrite V. cbn [bind]. rewrite B. auto.
   Qed.
 
-  Theorem general_rt_rg ms payload k k' rg v :
-    corresponds k k' -> (0 < ec_len k)%nat -> bytes_ok payload = true -> ms <> [] ->
-    (forall m, In m ms -> forall r,
+  Theorem general_rt_gen ms payload src src' rg v :
+    bytes_ok payload = true -> ms <> [] ->
+    (forall m, In m ms -> mkey_ok rg src src' m /\ prot_hok m /\ forall r,
         get_alg rg (match dget (smember_headers m) s_alg with Some v => v | None => PNone end) = Ok r -> fam_of r <> FNone) ->
-    sign_general_json json_dumps mac pk_sign ec_sign choose ms payload rg (KOne k) = Ok v ->
-    exists o, deserialize_json_rg json_loads mac pk_verify ec_verify v (KOne k') rg = Ok o /\
-              jo_payload o = payload /\ jo_members o = map smember_member ms.
+    sign_general_json json_dumps mac pk_sign ec_sign choose ms payload rg src = Ok v ->
+    exists o, deserialize_json_rg json_loads mac pk_verify ec_verify v src' rg = Ok o /\
+              jo_payload o = payload /\
+              Forall2 (fun m m' => exists k okid, guess_key_sign choose src (smember_headers m) = Ok (k, okid) /\
+                                                  m' = smember_member (smember_set_kid m okid)) ms (jo_members o).
   Proof.
-    intros C HL BP NE NN H. unfold sign_general_json in H. bstep H as sgs SM. inversion H; subst v. clear H.
-    destruct (members_rt payload k k' rg C HL ms sgs NN SM) as (A & B & L).
+    intros BP NE NN H. unfold sign_general_json in H. bstep H as sgs SM. inversion H; subst v. clear H.
+    destruct (members_rt_gen payload src src' rg ms sgs NN SM) as (ms' & F & A & B & L).
     unfold deserialize_json_rg, extract_general_json, decode_payload. cbn [of_opt bind].
     rewrite (b64_roundtrip payload BP). cbn [bind]. rewrite A. cbn [bind].
     unfold verify_general_json. cbn [jo_sigs jo_members jo_pseg fst snd].
     destruct sgs as [|sg sgs]; [destruct ms; [congruence|discriminate L]|].
     rewrite B. cbn [bind]. eexists. split; [reflexivity|]. auto.
+  Qed.
+
+  Theorem general_rt_rg ms payload k k' rg v :
+    corresponds k k' -> (0 < ec_len k)%nat -> bytes_ok payload = true -> ms <> [] ->
+    (forall m, In m ms -> prot_hok m /\ forall r,
+        get_alg rg (match dget (smember_headers m) s_alg with Some v => v | None => PNone end) = Ok r -> fam_of r <> FNone) ->
+    sign_general_json json_dumps mac pk_sign ec_sign choose ms payload rg (KOne k) = Ok v ->
+    exists o, deserialize_json_rg json_loads mac pk_verify ec_verify v (KOne k') rg = Ok o /\
+              jo_payload o = payload /\ jo_members o = map smember_member ms.
+  Proof.
+    intros C HL BP NE NN H.
+    assert (NN' : forall m, In m ms -> mkey_ok rg (KOne k) (KOne k') m /\ prot_hok m /\ forall r,
+        get_alg rg (match dget (smember_headers m) s_alg with Some v => v | None => PNone end) = Ok r -> fam_of r <> FNone).
+    { intros m Hin. destruct (NN m Hin). split; [apply mkey_ok_one; assumption|auto]. }
+    destruct (general_rt_gen ms payload (KOne k) (KOne k') rg v BP NE NN' H) as (o & D & P & F).
+    exists o. split; [exact D|]. split; [exact P|].
+    clear - F. induction F as [|m m' ms ms' (k0 & okid & G & ->) F IH]; [reflexivity|].
+    cbn [guess_key_sign] in G. inversion G; subst.
+    assert (E : smember_set_kid m None = m) by (destruct m; reflexivity).
+    rewrite E. cbn [map]. f_equal; try exact IH.
+  Qed.
+
+  (* ---------------- rfc7797 flattened JSON, b64 = false ---------------- *)
+  Lemma not_true_branch {A} (b : pv) (X Y : A) :
+    b <> PBool true -> match b with PBool true => X | _ => Y end = Y.
+  Proof. intro N. destruct b as [|[|]| | | | | |]; try reflexivity. congruence. Qed.
+
+  Definition fam_kty_ok (r : jws_alg_row) : bool :=
+    match fam_of r with
+    | FHmac => String.eqb (ja_key_type r) "oct"
+    | FRsa | FPss => String.eqb (ja_key_type r) "RSA"
+    | FEc => String.eqb (ja_key_type r) "EC"
+    | FEd => String.eqb (ja_key_type r) "OKP"
+    | _ => true
+    end.
+  Lemma table_kty : forallb fam_kty_ok jws_alg_table = true.
+  Proof. vm_compute. reflexivity. Qed.
+
+  Lemma get_alg_in rg v r : get_alg rg v = Ok r -> In r jws_alg_table.
+  Proof.
+    unfold get_alg. destruct v; try discriminate. unfold find_alg.
+    destruct (find (fun r0 => str_eqb (asc (ja_name r0)) s) jws_alg_table) eqn:F; [|discriminate].
+    apply find_some in F. destruct F as [F _].
+    match goal with |- (if ?c then _ else _) = _ -> _ => destruct c end; [|discriminate].
+    intro H. inversion H; subst. exact F.
+  Qed.
+
+  (* the algorithm models refuse a key object of another class: where signing
+     succeeds the key type is the one of the algorithm *)
+  Lemma sign_ok_kty r k msg sig :
+    In r jws_alg_table -> fam_of r <> FNone ->
+    alg_sign mac pk_sign ec_sign r k msg = Ok sig -> k_kty k = ja_key_type r.
+  Proof.
+    intros IN NN. pose proof table_kty as T. rewrite forallb_forall in T. specialize (T r IN).
+    unfold fam_kty_ok in T. unfold alg_sign. destruct (fam_of r) eqn:F; try congruence; try discriminate.
+    - intro H. bstep H as u CK. unfold mistyped in H.
+      destruct (String.eqb (k_kty k) "oct") eqn:E; [|discriminate].
+      apply String.eqb_eq in E, T. congruence.
+    - intro H. bstep H as u CK. unfold mistyped in H.
+      destruct (String.eqb (k_kty k) "RSA") eqn:E; [|destruct (String.eqb (k_kty k) "oct"); discriminate].
+      apply String.eqb_eq in E, T. congruence.
+    - intro H. bstep H as u CK. unfold mistyped in H.
+      destruct (String.eqb (k_kty k) "RSA") eqn:E; [|destruct (String.eqb (k_kty k) "oct"); discriminate].
+      apply String.eqb_eq in E, T. congruence.
+    - unfold mistyped.
+      destruct (String.eqb (k_kty k) "EC") eqn:E; [|destruct (String.eqb (k_kty k) "OKP"); discriminate].
+      intros _. apply String.eqb_eq in E, T. congruence.
+    - intro H. bstep H as u CK. unfold mistyped in H.
+      destruct (String.eqb (k_kty k) "OKP") eqn:E; [|discriminate].
+      apply String.eqb_eq in E, T. congruence.
+  Qed.
+
+  Lemma fixed_check_same m okid sig :
+    (match js_protected (sig_of (smember_set_kid m okid) sig) with Some _ => true | None => false end)
+      && unprotected_b64 (js_header (sig_of (smember_set_kid m okid) sig))
+    = (match sm_protected m with Some (_ :: _) => true | _ => false end)
+      && (match sm_header m with Some ((_ :: _) as h) => dmem h s_b64 | _ => false end).
+  Proof.
+    unfold sig_of, smember_set_kid, unprotected_b64. cbn [js_protected js_header sm_protected sm_header].
+    f_equal.
+    - destruct (sm_protected m) as [[|]|]; reflexivity.
+    - destruct okid as [id|].
+      + assert (D : forall hd : list (str * pv), dmem (dset hd s_kid (PStr id)) s_b64 = dmem hd s_b64).
+        { intro hd. apply dmem_dset_other. vm_compute. discriminate. }
+        destruct (sm_header m) as [[|kv hd]|].
+        * cbn. reflexivity.
+        * specialize (D (kv :: hd)). destruct (dset (kv :: hd) s_kid (PStr id)) eqn:E.
+          { destruct kv as [k0 v0]. cbn [dset] in E. destruct (str_eqb k0 s_kid); discriminate. }
+          exact D.
+        * cbn. reflexivity.
+      + destruct (sm_header m) as [[|]|]; reflexivity.
+  Qed.
+
+  Theorem json97_rt_gen fixed m payload src src' algs v :
+    mkey_ok (reg97 algs) src src' m -> prot_hok m ->
+    (exists b, dget (smember_headers m) s_b64 = Some b /\ b <> PBool true) ->
+    (forall okid, dget (smember_headers (smember_set_kid m okid)) s_b64 = dget (smember_headers m) s_b64) ->
+    (forall r, get_alg (reg97 algs) (match dget (smember_headers m) s_alg with Some v => v | None => PNone end) = Ok r -> fam_of r <> FNone) ->
+    serialize_json97 json_dumps mac pk_sign ec_sign choose fixed m payload src algs = Ok v ->
+    exists o k okid,
+      guess_key_sign choose src (smember_headers m) = Ok (k, okid) /\
+      deserialize_json97 json_loads mac pk_verify ec_verify fixed v src' algs = Ok o /\
+      jo_payload o = payload /\ jo_members o = [smember_member (smember_set_kid m okid)].
+  Proof.
+    intros KO PH (b & DB & NB) SB NN H. unfold serialize_json97 in H.
+    bstep H as u0 FX. rewrite DB in H. rewrite (not_true_branch b _ _ NB) in H.
+    bstep H as u CH. bstep H as kk GK. destruct kk as [k okid]. cbn [fst snd] in H.
+    rewrite (unit_tt u) in CH.
+    destruct (KO k okid CH GK) as (HL & CH' & GA' & k' & GKV & C).
+    bstep H as u2 CU. bstep H as algv GA. bstep H as r GR. bstep H as sig AS.
+    destruct (utf8_ok payload); [|discriminate].
+    assert (NNr : fam_of r <> FNone).
+    { apply NN. unfold py_getitem_str in GA. destruct (dget (smember_headers m) s_alg); inversion GA; subst; exact GR. }
+    destruct (alg_rt r k k' _ _ C NNr HL AS) as [BS AV].
+    pose proof (sign_ok_kty r k _ _ (get_alg_in _ _ _ GR) NNr AS) as KT.
+    set (m' := smember_set_kid m okid) in *.
+    assert (SG : v = JFlat (Some payload) (sig_of m' sig)).
+    { inversion H. unfold sig_of, m', smember_set_kid. cbn [sm_protected sm_header]. f_equal. f_equal.
+      unfold prot_hok in PH. destruct (sm_protected m) as [[|kv d]|]; try reflexivity.
+      pose proof (enc_nonempty _ PH) as NE. destruct (json_b64encode json_dumps (kv :: d)); [congruence|reflexivity]. }
+    destruct C as (Hid & Hty & Hcrv & Hbits & Huse & Hops).
+    rewrite <- GA' in GA. rewrite (unit_tt u2) in CU.
+    assert (CT : check_key_type r k' = Ok tt).
+    { unfold check_key_type. rewrite Hty, KT, String.eqb_refl. reflexivity. }
+    destruct (verify_side m' sig payload (reg97 algs) src' r k' algv) as [S2M V]; try assumption.
+    { rewrite (check_use_corr k k' Huse). exact CU. }
+    assert (FXC : (fixed && (match js_protected (sig_of m' sig) with Some _ => true | None => false end)
+                         && unprotected_b64 (js_header (sig_of m' sig))) = false).
+    { rewrite <- andb_assoc. unfold m'. rewrite fixed_check_same.
+      rewrite andb_assoc. destruct (fixed && _ && _); [discriminate FX|reflexivity]. }
+    assert (DB' : dget (smember_headers m') s_b64 = Some b) by (unfold m'; rewrite SB; exact DB).
+    exists {| jo_flat := true; jo_members := [smember_member m']; jo_payload := payload;
+              jo_sigs := [sig_of m' sig]; jo_pseg := payload |}, k, okid.
+    split; [exact GK|]. split; [|auto].
+    rewrite SG. unfold deserialize_json97, extract_json97. rewrite S2M. cbn [bind].
+    rewrite FXC. unfold ok. cbn [bind]. rewrite smember_headers_eq. cbn [bind].
+    unfold dmem. rewrite DB'. cbn [negb of_opt bind]. rewrite sig_of_signature. cbn [of_opt bind jo_members jo_sigs jo_pseg].
+    rewrite smember_headers_eq. cbn [bind]. unfold py_getitem_str at 1. rewrite DB'. cbn [bind].
+    rewrite (not_true_branch b _ _ NB). rewrite V. cbn [bind]. reflexivity.
+  Qed.
+
+  (* ---------------- key sets ---------------- *)
+  (* the verifier's set holds the public forms of the signer's keys, under the same kids *)
+  Definition corresponds_kid (k k' : key) : Prop := corresponds k k' /\ k_kid k' = k_kid k.
+
+  Lemma pick_candidates_incl ks alg k : In k (pick_candidates ks alg) -> In k ks.
+  Proof.
+    unfold pick_candidates. destruct alg; auto.
+    destruct (find _ keyset_algorithm_keys) as [[n [|a l]]|]; auto.
+    intro H. apply filter_In in H. tauto.
+  Qed.
+
+  Lemma find_corresponding ks ks' k id :
+    Forall2 corresponds_kid ks ks' -> NoDup (map k_kid ks) -> In k ks -> k_kid k = Some id ->
+    exists k', find (fun x => kid_matches x (PStr id)) ks' = Some k' /\ corresponds k k'.
+  Proof.
+    intros F. induction F as [|a a' l l' [C KK] F IH]; intros ND IN KI; [contradiction|].
+    cbn [map] in ND. inversion ND as [|? ? NI ND']; subst. cbn [find].
+    destruct IN as [->|IN].
+    - exists a'. unfold kid_matches. rewrite KK, KI, str_eqb_refl. auto.
+    - assert (NE : k_kid a <> Some id).
+      { intro E. apply NI. rewrite E, <- KI. apply in_map. exact IN. }
+      unfold kid_matches at 1. rewrite KK.
+      destruct (k_kid a) as [t|] eqn:KA.
+      + destruct (str_eqb id t) eqn:E; [apply str_eqb_eq in E; congruence|].
+        apply IH; assumption.
+      + apply IH; assumption.
+  Qed.
+
+  Lemma keyset_resolve ks ks' h k okid :
+    (forall l x, choose l = Some x -> In x l) ->
+    Forall2 corresponds_kid ks ks' -> NoDup (map k_kid ks) -> dget h s_kid = None ->
+    guess_key_sign choose (KSet ks) h = Ok (k, okid) ->
+    In k ks /\ exists id k', okid = Some id /\ k_kid k = Some id /\
+      find (fun x => kid_matches x (PStr id)) ks' = Some k' /\ corresponds k k'.
+  Proof.
+    intros CI F ND NK G. unfold guess_key_sign in G. rewrite NK in G. cbn [py_truth negb] in G.
+    bstep G as alg GA. destruct (choose (pick_candidates ks alg)) as [k0|] eqn:CH; [|discriminate].
+    destruct (k_kid k0) as [id|] eqn:KK; [|discriminate]. inversion G; subst k0 okid.
+    assert (IN : In k ks) by (eapply pick_candidates_incl, CI; exact CH).
+    split; [exact IN|]. destruct (find_corresponding ks ks' k id F ND IN KK) as (k' & FD & C).
+    exists id, k'. auto.
+  Qed.
+
+  Lemma key_ok_set rg ks ks' h :
+    (forall l x, choose l = Some x -> In x l) ->
+    Forall2 corresponds_kid ks ks' -> NoDup (map k_kid ks) ->
+    (forall k, In k ks -> (0 < ec_len k)%nat) ->
+    dget h s_kid = None -> (forall id, hok (dset h s_kid (PStr id)) = true) ->
+    key_ok rg (KSet ks) (KSet ks') h.
+  Proof.
+    intros CI F ND HL NK OK k okid CH G.
+    destruct (keyset_resolve ks ks' h k okid CI F ND NK G) as (IN & id & k' & -> & KK & FD & C).
+    cbn [set_kid]. split; [apply HL; exact IN|]. split; [apply OK|].
+    split; [apply check_header_set_kid; assumption|].
+    split.
+    { cbn [py_getitem_str]. rewrite dget_dset_other by (vm_compute; discriminate). reflexivity. }
+    exists k'. split; [|exact C].
+    cbn [guess_key hdr_get py_get_str]. rewrite dget_dset_same. cbn [bind get_by_kid]. rewrite FD. reflexivity.
+  Qed.
+
+  (* JSON members: the kid goes to the unprotected header *)
+  Lemma dupdate_dset_fresh id : forall (hd a0 : list (str * pv)),
+    dget (dupdate a0 hd) s_kid = None ->
+    dupdate a0 (dset hd s_kid (PStr id)) = dset (dupdate a0 hd) s_kid (PStr id) /\
+    dset hd s_kid (PStr id) <> [].
+  Proof.
+    unfold dupdate. induction hd as [|[k0 v0] hd IH]; intros a0 N0.
+    - cbn. split; [reflexivity|discriminate].
+    - cbn [fold_left fst snd] in N0. cbn [dset].
+      destruct (str_eqb k0 s_kid) eqn:E.
+      + exfalso. apply str_eqb_eq in E. subst k0.
+        assert (X : dmem (fold_left (fun acc kv => dset acc (fst kv) (snd kv)) hd (dset a0 s_kid v0)) s_kid = true).
+        { pose proof (dmem_dupdate hd (dset a0 s_kid v0) s_kid) as D. unfold dupdate in D. rewrite D.
+          unfold dmem at 1. rewrite dget_dset_same. reflexivity. }
+        unfold dmem in X. rewrite N0 in X. discriminate.
+      + cbn [fold_left fst snd]. split; [apply IH; exact N0|discriminate].
+  Qed.
+
+  Lemma smember_headers_set_kid m id :
+    dget (smember_headers m) s_kid = None ->
+    smember_headers (smember_set_kid m (Some id)) = dset (smember_headers m) s_kid (PStr id).
+  Proof.
+    unfold smember_headers, smember_set_kid. cbn [sm_protected sm_header].
+    set (a := match sm_protected m with Some d => d | None => [] end).
+    intro NK.
+    destruct (sm_header m) as [[|kv hd]|].
+    - cbn. reflexivity.
+    - destruct (dupdate_dset_fresh id (kv :: hd) a NK) as [G1 G2].
+      destruct (dset (kv :: hd) s_kid (PStr id)) eqn:E; [congruence|]. exact G1.
+    - cbn. reflexivity.
+  Qed.
+
+  Lemma mkey_ok_set rg ks ks' m :
+    (forall l x, choose l = Some x -> In x l) ->
+    Forall2 corresponds_kid ks ks' -> NoDup (map k_kid ks) ->
+    (forall k, In k ks -> (0 < ec_len k)%nat) ->
+    dget (smember_headers m) s_kid = None ->
+    mkey_ok rg (KSet ks) (KSet ks') m.
+  Proof.
+    intros CI F ND HL NK k okid CH G.
+    destruct (keyset_resolve ks ks' _ k okid CI F ND NK G) as (IN & id & k' & -> & KK & FD & C).
+    rewrite (smember_headers_set_kid m id NK).
+    split; [apply HL; exact IN|]. split; [apply check_header_set_kid; assumption|].
+    split.
+    { cbn [py_getitem_str]. rewrite dget_dset_other by (vm_compute; discriminate). reflexivity. }
+    exists k'. split; [|exact C].
+    cbn [guess_key hdr_get py_get_str]. rewrite dget_dset_same. cbn [bind get_by_kid]. rewrite FD. reflexivity.
+  Qed.
+
+  (* compact round trip with key sets on both sides *)
+  Theorem compact_rt_keyset h payload ks ks' rg tok :
+    (forall l x, choose l = Some x -> In x l) ->
+    Forall2 corresponds_kid ks ks' -> NoDup (map k_kid ks) ->
+    (forall k, In k ks -> (0 < ec_len k)%nat) ->
+    dget h s_kid = None -> (forall id, hok (dset h s_kid (PStr id)) = true) ->
+    bytes_ok payload = true ->
+    (forall r, get_alg rg (match dget h s_alg with Some v => v | None => PNone end) = Ok r -> fam_of r <> FNone) ->
+    serialize_compact_rg json_dumps mac pk_sign ec_sign choose h payload (KSet ks) rg = Ok tok ->
+    exists o k id,
+      In k ks /\ k_kid k = Some id /\
+      deserialize_compact_rg json_loads mac pk_verify ec_verify tok (KSet ks') rg = Ok o /\
+      co_payload o = payload /\ co_protected o = PDict (dset h s_kid (PStr id)).
+  Proof.
+    intros CI F ND HL NK OK BP NN H.
+    destruct (compact_rt_gen h payload _ _ rg tok (key_ok_set rg ks ks' h CI F ND HL NK OK) BP NN H)
+      as (o & k & okid & G & D & P & Q).
+    destruct (keyset_resolve ks ks' h k okid CI F ND NK G) as (IN & id & k' & -> & KK & _).
+    exists o, k, id. auto.
   Qed.
 
   (* ---------------- detached content ---------------- *)
